@@ -481,6 +481,41 @@ def substitute(t, m, cache=None):
     return r
 
 
+def instantiate_foralls(t, witness_tuples, positive=True):
+    """Replace every forall sub-formula occurring *positively* in hypothesis `t` by the
+    conjunction of its instances at the given witness tuples (same arity).  The result is
+    implied by `t` (sound weakening of a hypothesis); foralls in negative positions and those
+    without a matching witness tuple are kept."""
+    op = t.op
+    if op == 'forall':
+        if positive:
+            insts = []
+            for w in witness_tuples:
+                if len(w) == len(t.val) and all(a.sort == b.sort for a, b in zip(w, t.val)):
+                    body = substitute(t.args[0], dict(zip(t.val, w)))
+                    insts.append(instantiate_foralls(body, witness_tuples, True))
+            if insts:
+                return mk_and(*insts)
+        return t
+    if op == 'and':
+        return mk_and(*[instantiate_foralls(a, witness_tuples, positive) for a in t.args])
+    if op == 'or':
+        return mk_or(*[instantiate_foralls(a, witness_tuples, positive) for a in t.args])
+    if op == 'not':
+        return mk_not(instantiate_foralls(t.args[0], witness_tuples, not positive))
+    if op == '=>':
+        return mk_implies(instantiate_foralls(t.args[0], witness_tuples, not positive),
+                          instantiate_foralls(t.args[1], witness_tuples, positive))
+    if op == 'ite' and t.sort == BOOL:
+        return mk_ite(t.args[0], instantiate_foralls(t.args[1], witness_tuples, positive),
+                      instantiate_foralls(t.args[2], witness_tuples, positive))
+    return t
+
+
+def has_quantifier(t):
+    return any(s.op in ('forall', 'exists') for s in subterms(t))
+
+
 def rebuild(t, args):
     f = _MK.get(t.op)
     if f is not None:
